@@ -388,13 +388,21 @@ def oracle_state(c, ref, samples):
 
 
 # ----------------------------------------------------------------------------------------------
+PUBLIC_ONLY = [False]
+
+
 def build(ck, d):
     ok1, log1 = vf.coq_extract("C11", d)
     ok2, log2 = (False, "") if not ok1 else vf.ocaml_build(d, ["c11_model"], os.path.join(vf.VERIF, "ocaml/c11_driver.ml"), "model", floats=True)
     ok3, log3 = vf.cxx_build(os.path.join(vf.VERIF, "harness/c11/exact_harness.cpp"), os.path.join(d, "impl"), openmp=False,
                              extra=["-fno-builtin", "-ffp-contract=off"])
+    PUBLIC_ONLY[0] = False
     if not ok3:
-        ck.breaks.append("harness does not compile against /repo/src/ExactRiemannSolver.hpp:\n" + log3[-2000:])
+        ck.breaks.append("harness does not compile against /repo/src/ExactRiemannSolver.hpp (private helper interface changed?):\n" + log3[-2000:])
+        # search for a failing input anyway: a reduced harness that only calls the public solve()
+        ok3, log4 = vf.cxx_build(os.path.join(vf.VERIF, "harness/c11/exact_harness.cpp"), os.path.join(d, "impl"), openmp=False,
+                                 extra=["-fno-builtin", "-ffp-contract=off", "-DC11_PUBLIC_ONLY"])
+        PUBLIC_ONLY[0] = ok3
     if not (ok1 and ok2):
         ck.breaks.append("model extraction/build failed:\n" + (log1 + log2)[-2000:])
     return ok1 and ok2, ok3
@@ -477,7 +485,7 @@ def run(ck):
             lines.append("S " + state_words(c) + " " + hx(x))
             owner.append((si, x))
         # helper probes: brackets around the star pressure
-        if c["L"][0] > 0 and c["R"][0] > 0 and c["L"][2] > 0 and c["R"][2] > 0:
+        if not PUBLIC_ONLY[0] and c["L"][0] > 0 and c["R"][0] > 0 and c["L"][2] > 0 and c["R"][2] > 0:
             pm = max(c["L"][2], c["R"][2])
             for lo, hi in ((0.0, pm * 10.0 ** (3 * ck.rng.uniform())), (min(c["L"][2], c["R"][2]) * 10.0 ** (-3 * ck.rng.uniform()), pm * 10.0 ** (2 * ck.rng.uniform()))):
                 lines.append("P " + state_words(c) + " " + hx(lo) + " " + hx(hi))
